@@ -536,12 +536,23 @@ fn gen_mips(tier: Tier, rng: &mut Rng, em: &mut Emit) {
                     let cut = if is_branch_word(w) { 8 } else { 4 };
                     bytes.truncate(cut);
                     em.case(
-                        &format!("{}/sweep/op{:02x}", arch, op),
+                        &format!("{}/{}/sweep", arch, mips_name(w)),
                         format!("ins {} {} 0x1000 | {}", arch, bytes_hex(&bytes), st.render()),
                     );
                 }
             }
         }
+    }
+}
+
+/// the table's mnemonic for a word (`+nop` for branches, which the sweep pairs with a nop), else `opXX-YY`
+fn mips_name(w: u32) -> String {
+    let op = w >> 26;
+    let sub = if op == 0 || op == 0x1c || op == 0x1f { w & 0x3f } else if op == 1 { (w >> 16) & 31 } else { 0 };
+    match MIPS.iter().find(|t| t.op == op && t.sub == sub) {
+        Some(t) if is_branch(t) => format!("{}+nop", t.name),
+        Some(t) => t.name.to_string(),
+        None => format!("op{:02x}-{:02x}", op, sub),
     }
 }
 
@@ -557,8 +568,179 @@ fn is_branch_word(w: u32) -> bool {
     }
 }
 
+
+// ------------------------------------------------------------------------------------------------ PowerPC
+
+fn ppc_state(rng: &mut Rng) -> St {
+    let mut regs = Vec::new();
+    for i in 0..32 {
+        regs.push((format!("r{}", i), val32(rng) as u64, 32));
+    }
+    regs.push(("lr".to_string(), (val32(rng) & !3) as u64, 32));
+    regs.push(("ctr".to_string(), if rng.chance(1, 3) { rng.below(3) } else { val32(rng) as u64 }, 32));
+    regs.push(("carry".to_string(), rng.below(2), 1));
+    regs.push(("so".to_string(), rng.below(2), 1));
+    for i in 0..8 {
+        for f in ["lt", "gt", "eq", "so"] {
+            regs.push((format!("cr{}-{}", i, f), rng.below(2), 1));
+        }
+    }
+    St { big: true, regs, mem: Vec::new() }
+}
+
+/// (mnemonic, word) pairs for one random choice of fields
+fn ppc_words(rng: &mut Rng, sweep: Option<(&str, u32)>) -> Vec<(&'static str, u32, Option<(u32, u32, u32)>)> {
+    let mut f = rand_fields(rng);
+    let mut rb = rng.below(32) as u32;
+    if let Some((name, v)) = sweep {
+        match name {
+            "rt" => f.rt = v,
+            "ra" => f.rs = v,
+            _ => rb = v,
+        }
+    }
+    let (rt, ra, imm) = (f.rt & 31, f.rs & 31, f.imm & 0xffff);
+    let rc = if rng.chance(1, 4) { 1 } else { 0 };
+    let lk = rng.below(2) as u32;
+    let d = |op: u32| op << 26 | rt << 21 | ra << 16 | imm;
+    let x = |xo: u32, b: u32, rc: u32| 31u32 << 26 | rt << 21 | ra << 16 | b << 11 | xo << 1 | rc;
+    let sh = f.sa & 31;
+    let (mb, me) = ((rng.below(32)) as u32, (rng.below(32)) as u32);
+    let bf = rng.below(8) as u32;
+    let bo = rng.below(32) as u32;
+    let bi = rng.below(32) as u32;
+    let mem = |size: u32| Some((ra, imm, size));
+    vec![
+        ("addi", d(14), None),
+        ("addis", d(15), None),
+        ("ori", d(24), None),
+        ("nop", 24 << 26, None),
+        ("cmpwi", 11 << 26 | bf << 23 | ra << 16 | imm, None),
+        ("cmplwi", 10 << 26 | bf << 23 | ra << 16 | imm, None),
+        ("lbz", d(34), mem(1)),
+        ("lwz", d(32), mem(4)),
+        ("lwzu", d(33), mem(4)),
+        ("stw", d(36), mem(4)),
+        ("stwu", d(37), mem(4)),
+        ("stmw", d(47), mem(128)),
+        ("add", x(266, rb, rc), None),
+        ("subf", x(40, rb, rc), None),
+        ("addze", x(202, 0, rc), None),
+        ("mr", x(444, rt, 0), None),
+        ("or", x(444, rb, rc), None),
+        ("srawi", x(824, sh, rc), None),
+        ("mflr", 31 << 26 | rt << 21 | 8 << 16 | 339 << 1, None),
+        ("mfctr", 31 << 26 | rt << 21 | 9 << 16 | 339 << 1, None),
+        ("mtlr", 31 << 26 | rt << 21 | 8 << 16 | 467 << 1, None),
+        ("mtctr", 31 << 26 | rt << 21 | 9 << 16 | 467 << 1, None),
+        ("rlwinm", 21 << 26 | rt << 21 | ra << 16 | sh << 11 | mb << 6 | me << 1 | rc, None),
+        ("slwi", 21 << 26 | rt << 21 | ra << 16 | sh << 11 | (31 - sh) << 1, None),
+        ("b", 18 << 26 | (f.imm & 0x00ff_fffc), None),
+        ("bl", 18 << 26 | (f.imm & 0x00ff_fffc) | 1, None),
+        ("bc", 16 << 26 | bo << 21 | bi << 16 | (imm & 0xfffc) | lk, None),
+        ("beq", 16 << 26 | 12 << 21 | (4 * bf + 2) << 16 | (imm & 0xfffc), None),
+        ("bclr", 19 << 26 | bo << 21 | bi << 16 | 16 << 1 | lk, None),
+        ("blr", 19 << 26 | 20 << 21 | 16 << 1, None),
+        ("bctr", 19 << 26 | 20 << 21 | 528 << 1, None),
+        ("bcctr", 19 << 26 | (bo | 4) << 21 | bi << 16 | 528 << 1 | lk, None),
+    ]
+}
+
+/// mnemonic class of a PPC word by (opcode, extended opcode), else `opNN-XO`
+fn ppc_name(w: u32) -> String {
+    let op = w >> 26;
+    let xo = (w >> 1) & 0x3ff;
+    let n = match op {
+        14 => "addi", 15 => "addis", 24 => "ori", 11 => "cmpwi", 10 => "cmplwi", 34 => "lbz", 32 => "lwz", 33 => "lwzu",
+        36 => "stw", 37 => "stwu", 47 => "stmw", 21 => "rlwinm", 18 => if w & 1 == 1 { "bl" } else { "b" }, 16 => "bc",
+        19 => match xo { 16 => "bclr", 528 => "bcctr", _ => "" },
+        31 => match xo & 0x1ff {
+            266 => "add", 40 => "subf", 202 => "addze",
+            _ => match xo { 444 => "or", 824 => "srawi", 339 => "mfspr", 467 => "mtspr", _ => "" },
+        },
+        _ => "",
+    };
+    if n.is_empty() { format!("op{:02}-{}", op, if op == 31 || op == 19 { xo } else { 0 }) } else { n.to_string() }
+}
+
+fn gen_ppc(tier: Tier, rng: &mut Rng, em: &mut Emit) {
+    let thorough = tier == Tier::Thorough;
+    let emit = |em: &mut Emit, rng: &mut Rng, name: &str, w: u32, place: Option<(u32, u32, u32)>, var: &str| {
+        let mut st = ppc_state(rng);
+        if let Some((ra, off16, size)) = place {
+            let off = (off16 as u16 as i16) as i32 as u32;
+            let ea: u32 = if ra == 0 && name != "lwzu" && name != "stwu" {
+                off
+            } else {
+                BASES[rng.below(BASES.len() as u64) as usize].wrapping_add((rng.below(8) as u32) * 4 + if size == 1 { rng.below(4) as u32 } else { 0 })
+            };
+            if !(ra == 0 && name != "lwzu" && name != "stwu") {
+                st.set(&format!("r{}", ra), ea.wrapping_sub(off) as u64);
+            }
+            let start = (ea & !3) as u64;
+            let start = start.saturating_sub(16);
+            let len = 40 + if size > 4 { 128 } else { 0 };
+            st.mem.push((start, (0..len).map(|_| rng.next() as u8).collect()));
+        }
+        let addr = if rng.chance(3, 4) { ADDRS[0] } else { *rng.pick(&ADDRS) };
+        em.case(&format!("ppc/{}/{}", name, var), format!("ins ppc {} 0x{:x} | {}", bytes_hex(&w.to_be_bytes()), addr, st.render()));
+    };
+    // register-field sweeps
+    for field in ["rt", "ra", "rb"] {
+        for v in 0..32u32 {
+            for (name, w, place) in ppc_words(rng, Some((field, v))) {
+                emit(em, rng, name, w, place, &format!("{}-sweep", field));
+            }
+        }
+    }
+    for imm in IMMS.iter() {
+        for _ in 0..2 {
+            let mut ws = ppc_words(rng, None);
+            for (name, w, place) in ws.iter_mut() {
+                // force the 16-bit immediate of the D-forms
+                let op = *w >> 26;
+                if matches!(op, 14 | 15 | 24 | 10 | 11 | 32 | 33 | 34 | 36 | 37 | 47) && *name != "nop" {
+                    *w = (*w & 0xffff_0000) | *imm;
+                    if let Some(p) = place {
+                        p.1 = *imm;
+                    }
+                }
+                emit(em, rng, name, *w, *place, "imm");
+            }
+        }
+    }
+    for _ in 0..(if thorough { 400 } else { 40 }) {
+        for (name, w, place) in ppc_words(rng, None) {
+            emit(em, rng, name, w, place, "state");
+        }
+    }
+    // opcode-space sweep
+    for op in 0u32..64 {
+        for sub in 0u32..64 {
+            for _ in 0..(if thorough { 4 } else { 1 }) {
+                let mut w = (op << 26) | (rng.next() as u32 & 0x03ff_ffff);
+                if op == 31 || op == 19 {
+                    w = (w & !0x7fe) | ((rng.next() as u32 & 0x3c0) | sub) << 1;
+                }
+                let mut st = ppc_state(rng);
+                if op >= 32 {
+                    let ra = (w >> 16) & 31;
+                    let off = ((w & 0xffff) as u16 as i16) as i32 as u32;
+                    let ea = if ra == 0 { off } else { 0x0001_0000 + (rng.below(8) as u32) * 4 };
+                    if ra != 0 {
+                        st.set(&format!("r{}", ra), ea.wrapping_sub(off) as u64);
+                    }
+                    st.mem.push((((ea & !3) as u64).saturating_sub(16), (0..168).map(|_| rng.next() as u8).collect()));
+                }
+                em.case(&format!("ppc/{}/sweep", ppc_name(w)), format!("ins ppc {} 0x1000 | {}", bytes_hex(&w.to_be_bytes()), st.render()));
+            }
+        }
+    }
+}
+
 fn generate(tier: Tier, rng: &mut Rng, em: &mut Emit) {
     gen_mips(tier, rng, em);
+    gen_ppc(tier, rng, em);
 }
 
 fn main() {
